@@ -46,6 +46,11 @@ pub fn unwatch_reads(fd: i32) { let _ = WATCH.try_with(|c| { let mut a = c.get()
 pub fn reads_seen(fd: i32) -> u32 { WATCH.try_with(|c| c.get().iter().find(|e| e.0 == fd).map(|e| e.1).unwrap_or(0)).unwrap_or(0) }
 /// the read(2) calls on the watched `fd` numbered `n`, `n`+1, ... (from 0) fail with `errno`
 pub fn fail_reads_from_call(fd: i32, n: u32, errno: i32) { let _ = WATCH.try_with(|c| { let mut a = c.get(); for e in a.iter_mut() { if e.0 == fd { e.2 = n; e.3 = errno; } } c.set(a); }); }
+/// the same, but only the call numbered `n` fails; the calls after it reach the kernel again (a
+/// transient failure: the device hiccups once)
+pub fn fail_read_call_once(fd: i32, n: u32, errno: i32) { fail_reads_from_call(fd, n, errno); let _ = WATCH_ONCE.try_with(|c| c.set(fd)); }
+pub fn clear_once() { let _ = WATCH_ONCE.try_with(|c| c.set(-1)); }
+thread_local! { static WATCH_ONCE: Cell<i32> = const { Cell::new(-1) }; }
 /// has a call-numbered failure on `fd` happened yet?
 pub fn watch_fired(fd: i32) -> bool { WATCH.try_with(|c| c.get().iter().any(|e| e.0 == fd && e.4)).unwrap_or(false) }
 
@@ -87,7 +92,8 @@ pub unsafe extern "C" fn read(fd: libc::c_int, buf: *mut libc::c_void, count: li
     if let Ok(mut w) = WATCH.try_with(|c| c.get()) {
       if let Some(i) = w.iter().position(|e| e.0 == fd) {
         let call = w[i].1; w[i].1 = call.saturating_add(1);
-        let fail = call >= w[i].2;
+        let once = WATCH_ONCE.try_with(|c| c.get() == fd).unwrap_or(false);
+        let fail = if once { call == w[i].2 } else { call >= w[i].2 };
         if fail { w[i].4 = true; }
         let errno = w[i].3;
         let _ = WATCH.try_with(|c| c.set(w));
